@@ -3,6 +3,7 @@ package main
 import (
 	"fmt"
 	"go/types"
+	"sort"
 	"strings"
 
 	"golang.org/x/tools/go/ssa"
@@ -132,11 +133,155 @@ func (a *Act) doCall(res ssa.Value, instr ssa.Instruction, c *ssa.CallCommon, re
 		a.staticCall(res, instr, f, args, st, reach)
 		return
 	}
-	if fp := eng.fnparamContract(a, c.Value); fp != nil {
-		a.callByContract(res, instr, nil, fp, args, st, reach)
+	if g.topCt != nil && g.topCt.Inlines != nil && a.dynDispatch(res, instr, c, recv, args, st, reach) {
+		return
+	}
+	a.unknownFnCall(res, instr, c, recv, args, st, reach)
+}
+
+// unknownFnCall: a call through a function value about which nothing is known but its type: the contract declared for
+// that named function type ("contract type T"), else a sound havoc.
+func (a *Act) unknownFnCall(res ssa.Value, instr ssa.Instruction, c *ssa.CallCommon, recv string, args []string, st *State, reach string) {
+	eng := a.g.eng
+	// the contract of a function type is a model of caller-supplied values used by proofs that execute callee bodies in
+	// place (clause "inlines"); elsewhere a call through an unknown function value stays a sound havoc
+	if fp := eng.fnTypeContract(c.Value.Type()); fp != nil && a.g.topCt != nil && a.g.topCt.Inlines != nil {
+		a.callByContract(res, instr, nil, fp, append([]string{recv}, args...), st, reach)
 		return
 	}
 	a.havocCall(res, instr, st, reach, "dynamic call "+c.Value.Name()+" : "+c.Value.Type().String(), eng.assumePureDynamic)
+}
+
+// dynDispatch: a call through a function value while callee bodies are executed in place (inlines): the value is compared
+// with every closure created so far in this proof context that has the same signature; for each the closure's own contract
+// (or body) is used; if it is none of them, the call is one through an unknown value.
+func (a *Act) dynDispatch(res ssa.Value, instr ssa.Instruction, c *ssa.CallCommon, recv string, args []string, st *State, reach string) bool {
+	g := a.g
+	sig, ok := c.Value.Type().Underlying().(*types.Signature)
+	if !ok {
+		return false
+	}
+	var names []string
+	for n, ci := range g.closures {
+		if types.Identical(ci.fn.Signature, sig) || (ci.fn.Signature.Params().Len() == sig.Params().Len() && types.Identical(types.NewSignatureType(nil, nil, nil, ci.fn.Signature.Params(), ci.fn.Signature.Results(), false), types.NewSignatureType(nil, nil, nil, sig.Params(), sig.Results(), false))) {
+			names = append(names, n)
+		}
+	}
+	if len(names) == 0 {
+		return false
+	}
+	sort.Slice(names, func(i, j int) bool {
+		if g.closures[names[i]].id != g.closures[names[j]].id {
+			return g.closures[names[i]].id < g.closures[names[j]].id
+		}
+		return names[i] < names[j]
+	})
+	// one name per closure (conversions between function types register the same closure under a second term)
+	{
+		var uniq []string
+		seen := map[*closureInfo]bool{}
+		for _, n := range names {
+			if !seen[g.closures[n]] {
+				seen[g.closures[n]] = true
+				uniq = append(uniq, n)
+			}
+		}
+		names = uniq
+	}
+	// solver-aided resolution of the callee: in the common case the value is provably one particular closure (the k-th
+	// call through a function value usually is the k-th closure created), or provably none of them
+	if len(names) > 0 {
+		guess := names[g.dynCount%len(names)]
+		g.dynCount++
+		order := append([]string{guess}, names...)
+		tried := map[string]bool{}
+		for i, n := range order {
+			if tried[n] || i > 1 && g.dynQueries > 400 {
+				continue
+			}
+			tried[n] = true
+			if g.provable(reach, fmt.Sprintf("(= %s %s)", recv, n)) {
+				g.note("call through a function value resolved to %s (solver-aided)", shortFn(g.closures[n].fn))
+				a.closureCall(res, instr, g.closures[n], args, st, reach)
+				return true
+			}
+			if i == 0 {
+				var neq []string
+				for _, m := range names {
+					neq = append(neq, fmt.Sprintf("(not (= %s %s))", recv, m))
+				}
+				if g.provable(reach, "(and "+strings.Join(neq, " ")+")") {
+					g.note("call through a function value resolved to none of the closures created by the call (solver-aided)")
+					a.unknownFnCall(res, instr, c, recv, args, st, reach)
+					return true
+				}
+			}
+		}
+	}
+	type outcome struct {
+		cond string
+		vals []string
+		st   *State
+	}
+	var outs []outcome
+	var neq []string
+	run := func(cond string, f func(sub *State)) {
+		sub := st.clone()
+		oldEnv, hadEnv := "", false
+		var oldTup []string
+		if res != nil {
+			oldEnv, hadEnv = a.env[res]
+			oldTup = a.tuples[res]
+		}
+		f(sub)
+		o := outcome{cond: cond, st: sub}
+		if res != nil {
+			if _, isTup := res.Type().(*types.Tuple); isTup {
+				o.vals = a.tuples[res]
+			} else {
+				o.vals = []string{a.env[res]}
+			}
+			if hadEnv {
+				a.env[res] = oldEnv
+			} else {
+				delete(a.env, res)
+			}
+			if oldTup != nil {
+				a.tuples[res] = oldTup
+			} else {
+				delete(a.tuples, res)
+			}
+		}
+		outs = append(outs, o)
+	}
+	for _, n := range names {
+		ci := g.closures[n]
+		cond := g.def(a.nm("dyn"), "Bool", fmt.Sprintf("(and %s (= %s %s))", reach, recv, n))
+		neq = append(neq, fmt.Sprintf("(not (= %s %s))", recv, n))
+		run(cond, func(sub *State) { a.closureCall(res, instr, ci, args, sub, cond) })
+	}
+	other := g.def(a.nm("dyn_other"), "Bool", fmt.Sprintf("(and %s %s)", reach, strings.Join(neq, " ")))
+	run(other, func(sub *State) { a.unknownFnCall(res, instr, c, recv, args, sub, other) })
+	var sts []*State
+	var conds []string
+	for _, o := range outs {
+		sts = append(sts, o.st)
+		conds = append(conds, o.cond)
+	}
+	*st = *g.mergeStateList(sts, conds)
+	if res != nil {
+		n := len(outs[0].vals)
+		vs := make([]string, n)
+		for i := 0; i < n; i++ {
+			term := outs[len(outs)-1].vals[i]
+			for j := len(outs) - 2; j >= 0; j-- {
+				term = fmt.Sprintf("(ite %s %s %s)", outs[j].cond, outs[j].vals[i], term)
+			}
+			vs[i] = term
+		}
+		a.bindResults(res, vs)
+	}
+	return true
 }
 
 func (a *Act) closureCall(res ssa.Value, instr ssa.Instruction, ci *closureInfo, args []string, st *State, reach string) {
@@ -158,6 +303,11 @@ func (a *Act) staticCall(res ssa.Value, instr ssa.Instruction, fn *ssa.Function,
 	eng := g.eng
 	name := shortFn(fn)
 	if a.ghostCall(res, instr, fn, args, st, reach) {
+		return
+	}
+	if n, ok := g.forcedInline(fn); ok && !a.onStack(fn) && len(fn.Blocks) > 0 {
+		// "inlines" of the contract under verification: the callee's real body is executed in place
+		a.inlineN(res, instr, fn, args, nil, st, reach, n)
 		return
 	}
 	if sf := eng.specBySSA(fn); sf != nil && eng.inRepo(fn) && res != nil {
@@ -231,7 +381,19 @@ func (a *Act) staticCall(res ssa.Value, instr ssa.Instruction, fn *ssa.Function,
 	a.inline(res, instr, fn, args, nil, st, reach)
 }
 
+func (g *Gen) forcedInline(fn *ssa.Function) (int, bool) {
+	if g.topCt == nil || g.topCt.Inlines == nil {
+		return 0, false
+	}
+	n, ok := g.topCt.Inlines[shortFn(fn)]
+	return n, ok
+}
+
 func (a *Act) inline(res ssa.Value, instr ssa.Instruction, fn *ssa.Function, args []string, freeVars []string, st *State, reach string) {
+	a.inlineN(res, instr, fn, args, freeVars, st, reach, 0)
+}
+
+func (a *Act) inlineN(res ssa.Value, instr ssa.Instruction, fn *ssa.Function, args []string, freeVars []string, st *State, reach string, unroll int) {
 	g := a.g
 	g.cnt++
 	p := a.pos(instr.Pos())
@@ -243,6 +405,10 @@ func (a *Act) inline(res ssa.Value, instr ssa.Instruction, fn *ssa.Function, arg
 	}
 	sub.ct = nil
 	sub.env = nil
+	sub.unrollN = unroll
+	if unroll == 0 && hasLoops(fn) {
+		panic(contractError{fmt.Sprintf("inlines %s: the function has loops, an unroll count is needed", shortFn(fn))})
+	}
 	sub.runWithFree(args, freeVars, st, reach)
 	if len(sub.rets) == 0 {
 		g.note("callee never returns: %s", shortFn(fn))
